@@ -561,7 +561,7 @@ Proof.
   set (c := mkCircuit (b_inputs b) (GXor 0 0 :: GNot n_in :: map (final_gate n_in) cg)
               (map (final_idx n_in) (map (renum shift used) pw ++ map (renum shift used) outs))).
   assert (Hbuild : build b pw outs = Ok c).
-  { unfold build, remove_unused_gates. fold shift. rewrite Hrev, Hn. fold used0 used.
+  { unfold build, remove_unused_gates. fold shift. rewrite frev_rev, Hrev, Hn. fold used0 used.
     rewrite rev_involutive. fold gs. rewrite Htbl, Hkeep. cbn [bind].
     rewrite (Hidx pw) by (intros; apply in_or_app; now left).
     rewrite (Hidx outs) by (intros; apply in_or_app; now right). reflexivity. }
